@@ -83,7 +83,7 @@ pub fn all() -> Vec<PropDef> {
         PropDef {
             id: "C18",
             rule: "exhaustive: every string over {r,#,a,Z,_,0,9,space,:,-,e-acute,NUL} up to length 6 (thorough: 7) as a single segment; proptest: segment lists of valid identifiers and near misses, module paths and replacement tables; oracle = explicit DFA for (r#)?[A-Za-z_][A-Za-z0-9_]* and list semantics; non-trivial = string of length >= 2 / list of >= 2 segments",
-            assumptions: &["replacement tables have distinct search keys and no replacement equal to a search key", "module paths are non-empty and their segments contain no ':'"],
+            assumptions: &["replacement tables have distinct search keys; a replacement may equal another search key, and following the documentation (every search item that appears in the module path is replaced) rules are expected not to chain", "module paths are non-empty and their segments contain no ':'"],
             subs: || {
                 let mut v = crate::p_path::c18_subs();
                 v.extend(crate::fuzz_entry::fuzz_subs("C18"));
